@@ -89,7 +89,7 @@ func init() {
 		Assume: []string{"liveness is bounded-step: a vault counts only while liquidation+dutch are enabled, both prices active and no breaker/ESM, continuously", "a seizure inside the 18-decimal rounding band is counted, not reported"},
 	}
 	props["C10"] = &PropSpec{
-		ID: "C10", Level: "exploration", Scenarios: []string{"cdp"},
+		ID: "C10", Level: "exploration", Scenarios: []string{"cdp", "cdp", "lend"},
 		Oracles:   func(w *World) []Oracle { return []Oracle{newC10()} },
 		Quick:     Budget{Runs: 160, MaxEvents: 180},
 		Thorough:  Budget{Runs: 6000, MaxEvents: 500},
@@ -107,7 +107,7 @@ func init() {
 			}
 		},
 		Rule: "one case = one seeded simulated run in which vaults are seized and several bidders place tiny/partial/exact/over-sized dutch bids at PRNG-chosen times relative to price updates and restarts; distinct = distinct digest of (event, outcome) sequence; non-trivial = at least one successful bid was checked against the posted price from balance deltas",
-		Assume: []string{"V2 vault-initiated dutch auctions; lend- and externally-initiated auctions and the v1 generation are covered by the lend/auctions scenarios when built"},
+		Assume: []string{"V2 dutch auctions initiated by vault and by borrow liquidations (lend scenario: per-bid price/bonus and totals; the close-time distribution equation is checked for vault auctions)", "externally initiated auctions and the v1 generation (whose block hooks are not wired in the shipped app) are not exercised"},
 	}
 	props["C17"] = &PropSpec{
 		ID: "C17", Level: "exploration", Scenarios: []string{"oracle"}, PanicIsViolation: true,
@@ -166,5 +166,33 @@ func registerDerived() {
 		props["C20"].Scenarios = append(props["C20"].Scenarios, e)
 		props["C15"].Scenarios = append(props["C15"].Scenarios, i)
 		props["C16"].Scenarios = append(props["C16"].Scenarios, base)
+	}
+}
+
+// mergeLendParts folds the helper specs C09L / C18L (lend scenario) into the real properties C09 / C18.
+func mergeLendParts() {
+	if l, ok := props["C09L"]; ok {
+		c := props["C09"]
+		cdpOr, cdpTw := c.Oracles, c.TweakCfg
+		c.Scenarios = []string{"cdp", "lend"}
+		c.Oracles = func(w *World) []Oracle {
+			if w.Cfg.Scenario == "lend" {
+				return l.Oracles(w)
+			}
+			return cdpOr(w)
+		}
+		c.TweakCfg = func(r *Rng, cfg *Config) {
+			if cfg.Scenario == "lend" {
+				l.TweakCfg(r, cfg)
+			} else {
+				cdpTw(r, cfg)
+			}
+		}
+		c.EssentialAny = [][]string{c.Essential, l.Essential}
+		c.Essential = nil
+		c.BatchProbe = append(append([]string{}, c.BatchProbe...), l.BatchProbe...)
+		c.Quick = Budget{Runs: 200, MaxEvents: 160}
+		c.Rule += "; the same for borrow positions in the lend scenario (e-mode and bridged thresholds, seizure = exact bank deltas pool -> auction custody, one auction, bounded liveness over the borrow list)"
+		c.Assume = append(c.Assume, l.Assume...)
 	}
 }
